@@ -1,0 +1,10 @@
+//go:build verif
+
+package pclog
+
+// VerifObserverCount: number of subscribed observers (verification harness only).
+func (b *ProcessLogBuffer) VerifObserverCount() int {
+	b.mx.Lock()
+	defer b.mx.Unlock()
+	return len(b.observers)
+}
